@@ -18,7 +18,9 @@ from props import c18_dump as D, c18_gen as G
 
 PRELUDE = 'From Coq Require Import List ZArith Bool.\nImport ListNotations.\nFrom V Require Import Model.Schem.\n'
 CLAUSES = ['circuit dump well-formed', 'symbol ids distinct', 'only symbols of children/ports', 'exactly one symbol per child/port',
-           'no two instance/port symbols in one cell or overlapping', 'net ends name pins of their own wire', 'per-wire figure connected to driver and all readers']
+           'no two instance/port symbols in one cell or overlapping', 'net ends name pins of their own wire', 'per-wire figure connected to driver and all readers',
+           'pins of different wires are drawn at different points', 'every net is routed and its polyline ends exactly on the pins it names']
+NF = len(CLAUSES)
 BATCH = 120          # layouts per case file (each coq_eval call also re-checks the library build: a few seconds)
 PLACER_TIMEOUT_S = 20
 MAX_REPORTS = 5         # replay files written per run; further rejected layouts are only counted
@@ -59,7 +61,7 @@ def validate(tag, cases):
 
 def explain(conn, lay, diag):
     """human-readable failing clause + symbol/net/wire from a schem_diag value"""
-    flags = list(diag[:7]); missing, extra, pairs, badnets, badwires = diag[7:12]
+    flags = list(diag[:NF]); missing, extra, pairs, badnets, badwires, clash, badgeo = diag[NF:NF + 7]
     name = {s['id']: '%s %s' % (s['kind'], s['name']) for s in lay['syms']}
     ename = lambda e: {0: 'in-port %d', 1: 'child %d', 2: 'out-port %d'}[e[0]] % e[1] + (' (%s)' % conn['child_names'][e[1]] if e[0] == 1 and e[1] < len(conn['child_names']) else '')
     pname = lambda p: '%s%s pin %s%d' % (p[0][0], p[0][1], 'out' if p[1] else 'in', p[2])
@@ -76,6 +78,12 @@ def explain(conn, lay, diag):
                                     'readers_not_reached': [pname(w['rd'][k]) for k in unreached],
                                     'nets_not_connected_to_driver': nloose,
                                     'nets_drawn_for_it': [n['text'] for n in lay['nets'] if n['wire'] == wid]})
+    if clash:
+        ex['pins_of_different_wires_at_one_point'] = [{'symbols': (name.get(a, a), name.get(b, b)), 'point': (x, y),
+                                                       'pins': [pname(q['pin']) for q in lay['pins'] if (q['x'], q['y']) == (x, y)]} for (a, b, x, y) in clash[:8]]
+    if badgeo:
+        ex['nets_not_routed_or_not_ending_on_their_pins'] = [{'net': lay['nets'][i]['text'], 'from': lay['nets'][i].get('from'), 'to': lay['nets'][i].get('to')}
+                                                             for i in badgeo[:8] if i < len(lay['nets'])]
     if lay.get('objs_not_in_matrix'): ex['symbols_created_but_not_in_grid'] = lay['objs_not_in_matrix'][:10]
     if lay.get('undrawn_net_ends'): ex['net_ends_on_symbols_not_in_grid'] = list(lay['undrawn_net_ends'].values())[:10]
     return ex
@@ -85,8 +93,8 @@ def matches_F1(conn, lay, info, diag):
     """known finding C18-F1, narrow: ONLY the per-wire clause fails; insertFeedback's `assert(sinkcol > 0)` was swallowed
     by placeAndRoute; every failing wire is driven by a child whose symbol sits in grid column 1, all of its nets are
     connected, and every unreached reader is an input pin of that SAME child (a self-loop)."""
-    flags = list(diag[:7]); badwires = diag[11]
-    if flags != [True] * 6 + [False] or not badwires: return False
+    flags = list(diag[:NF]); badwires = diag[NF + 4]
+    if flags != [True] * 6 + [False] + [True] * (NF - 7) or not badwires: return False
     if not any('error in passthrough' in x and 'AssertionError' in x for x in info.get('swallowed', [])): return False
     col = {s['for']: s['col'] for s in lay['syms'] if s['for'] is not None}
     for (wid, has_drv, unreached, nloose) in badwires:
@@ -94,6 +102,25 @@ def matches_F1(conn, lay, info, diag):
         if not has_drv or nloose != 0 or not unreached: return False
         if w['drv'][0][0] != 'ch' or col.get(w['drv'][0]) != 1: return False
         if any(w['rd'][k][0] != w['drv'][0] for k in unreached): return False
+    return True
+
+
+def matches_F2(conn, lay, info, diag):
+    """known finding C18-F2, narrow: ONLY the pin-point clause fails, and every clashing pair is two INPUT pins (index >= 1) of one
+    child of class Add / Sub / Mul (the '+' '-' '*' circle) that has more than two in-ports."""
+    flags = list(diag[:NF]); clash = diag[NF + 5]
+    if flags != [True] * 7 + [False, True] or not clash: return False
+    wire_of = {}
+    for w in conn['wires']:
+        for q in [w['drv']] + w['rd']: wire_of[q] = w['id']
+    by_pt = {}
+    for q in lay['pins']: by_pt.setdefault((q['x'], q['y']), []).append(q)
+    for pt, qs in by_pt.items():
+        if len(set(wire_of.get(q['pin']) for q in qs)) < 2: continue
+        for q in qs:
+            e, is_out, ix = q['pin']
+            if e[0] != 'ch' or is_out or ix < 1 or any(o['sym'] != q['sym'] for o in qs): return False
+            if conn['child_names'][e[1]].split(':')[0] not in ('Add', 'Sub', 'Mul') or conn['children'][e[1]][0] <= 2: return False
     return True
 
 
@@ -121,6 +148,26 @@ def corruptions(conn, lay, rng):
         if cands:
             i, q = rng.choice(cands); l2 = copy.deepcopy(lay); l2['nets'][i]['snk'] = (l2['nets'][i]['snk'][0], q)
             out.append(('net end moved to a pin of another wire on the same symbol: ' + lay['nets'][i]['text'], l2))
+    pins = lay.get('pins', [])
+    wire_of = {}
+    for w in conn['wires']:
+        for q in [w['drv']] + w['rd']: wire_of[q] = w['id']
+    cl = [(a, b) for a in pins for b in pins if a is not b and wire_of.get(a['pin']) != wire_of.get(b['pin'])]
+    if cl:
+        a, b = rng.choice(cl); l2 = copy.deepcopy(lay)
+        for q in l2['pins']:
+            if q['sym'] == b['sym'] and q['pin'] == b['pin']: q.update(x=a['x'], y=a['y'])
+        for n in l2['nets']:                       # the nets of that pin follow it, as they would in the real drawing
+            if n['src'] == (b['sym'], b['pin']): n['from'] = (a['x'], a['y'])
+            if n['snk'] == (b['sym'], b['pin']): n['to'] = (a['x'], a['y'])
+        out.append(('pin drawn on the point of a pin of another wire', l2))
+    if sink_nets:
+        i = rng.choice(sink_nets); l2 = copy.deepcopy(lay); t = l2['nets'][i]['to']
+        if t is not None:
+            l2['nets'][i]['to'] = (t[0] + rng.choice([-1, 1]), t[1]) if rng.random() < .5 else (t[0], t[1] + rng.choice([-1, 1]))
+            out.append(('net polyline ends one pixel off its pin: ' + lay['nets'][i]['text'], l2))
+        i = rng.choice(range(len(lay['nets']))); l2 = copy.deepcopy(lay); l2['nets'][i]['from'] = None; l2['nets'][i]['to'] = None
+        out.append(('net never routed: ' + lay['nets'][i]['text'], l2))
     if len(real) >= 2:
         a, b = rng.sample(real, 2)
         l2 = copy.deepcopy(lay)
@@ -138,7 +185,7 @@ def corruptions(conn, lay, rng):
 def recipes_for(ctx):
     lib = G.LIB_QUICK if ctx.quick else G.LIB_THOROUGH
     n_rand, n_top = (45, 12) if ctx.quick else (2500, 400)
-    rs = [('lib', n, list(p)) for n, p in lib] + [('selfloop', list(v)) for v in G.SELFLOOPS] + [('loop', list(v)) for v in G.LOOPS] + [('par', list(v)) for v in G.PARS]
+    rs = [('lib', n, list(p)) for n, p in lib] + [('selfloop', list(v)) for v in G.SELFLOOPS] + [('loop', list(v)) for v in G.LOOPS] + [('par', list(v)) for v in G.PARS] + [('gate', list(v)) for v in G.GATES]
     for i in range(n_rand):
         seed = ctx.seed * 100003 + i
         rs.append(('rand', seed, G.rand_params(random.Random(seed), i)))
@@ -189,8 +236,8 @@ def classify(ctx, placed, diags):
         kinds = [s['kind'] for s in lay['syms']]
         ctx.sample({'recipe': r, 'children': conn['child_names'], 'wires': len(conn['wires']), 'symbols': len(lay['syms']), 'nets': len(lay['nets']),
                     'passthroughs': kinds.count('KPass'), 'feedback_markers': kinds.count('KFbStart') + kinds.count('KFbStop'),
-                    'first_nets': [n['text'] for n in lay['nets'][:4]], 'validator': 'schem_ok = %s' % all(dg[:7])}, limit=6)
-        if all(dg[:7]): continue
+                    'first_nets': [n['text'] for n in lay['nets'][:4]], 'validator': 'schem_ok = %s' % all(dg[:NF])}, limit=6)
+        if all(dg[:NF]): continue
         rejected += 1
         ex = explain(conn, lay, dg)
         if matches_F1(conn, lay, info, dg) and any(k['id'] == 'C18-F1' and k['status'] == 'known' for k in ctx.known):
@@ -199,6 +246,10 @@ def classify(ctx, placed, diags):
             continue
         if len(ctx.violations) >= MAX_REPORTS:
             ctx.notes['further_rejected_layouts_not_written_out'] = ctx.notes.get('further_rejected_layouts_not_written_out', 0) + 1
+            continue
+        if matches_F2(conn, lay, info, dg) and any(k['id'] == 'C18-F2' and k['status'] == 'known' for k in ctx.known):
+            ctx.known_finding('C18-F2', 'C18-F2 Add with carry-in: input pins b and ci are drawn at one point (BinaryOperatorSymbol.getPortSinkPos): %s' % json.dumps(r))
+            ctx.notes.setdefault('known_finding_witnesses', []).append({'recipe': r, 'pins': ex.get('pins_of_different_wires_at_one_point')})
             continue
         ctx.violation({'what': 'the schematic does not show the circuit: ' + '; '.join(ex['failed_clauses']), 'recipe': r,
                        'children': conn['child_names'], 'diagnosis': ex, 'swallowed_exceptions': info['swallowed'],
@@ -214,7 +265,7 @@ def negative_controls(ctx, placed):
     idx = [i for i, (r, p) in enumerate(placed) if len(p['lay']['nets']) >= 3 and not p['info']['swallowed']]
     rng.shuffle(idx)
     out = []
-    for i in idx[:8 if ctx.quick else 40]:
+    for i in idx[:6 if ctx.quick else 40]:
         r, p = placed[i]
         for what, l2 in corruptions(p['conn'], p['lay'], rng):
             out.append((i, what, p['conn'], l2))
@@ -224,10 +275,10 @@ def negative_controls(ctx, placed):
 def judge_negatives(ctx, placed, diags, negs, ndiags):
     n_rej = 0; n = 0
     for (i, what, _, _), dg in zip(negs, ndiags):
-        if not all(diags[i][:7]): continue            # the original itself was rejected: nothing to learn
+        if not all(diags[i][:NF]): continue            # the original itself was rejected: nothing to learn
         n += 1
         ctx.count(('neg', what.split(':')[0][:24], json.dumps(placed[i][0])[:60]))
-        if all(dg[:7]):
+        if all(dg[:NF]):
             ctx.violation({'what': 'validator self-test: a corrupted layout was ACCEPTED (%s)' % what, 'recipe': placed[i][0]}, found_input=False)
         else: n_rej += 1
     ctx.notes['negative_controls_rejected'] = n_rej
@@ -280,7 +331,7 @@ def replay(rp):
     print('children:', p['conn']['child_names'])
     print('swallowed exceptions inside placeAndRoute:', p['info']['swallowed'])
     for n in p['lay']['nets']: print('  net', n['text'])
-    if all(dg[:7]):
+    if all(dg[:NF]):
         print('validator: schem_ok = true'); return 0
     print('validator: schem_ok = false'); print(json.dumps(explain(p['conn'], p['lay'], dg), indent=1))
     return 1
